@@ -35,7 +35,7 @@ var c06Core = []string{"2020-01-01", "\n", "    ", "\t", " ", "1h", "-", "?", "8
 
 func c06Spaces(tier fw.Tier) []docgen.TokenSpace {
 	if tier == fw.Thorough {
-		return []docgen.TokenSpace{{Alphabet: c06Alphabet, MaxLen: 5}, {Alphabet: c06Core, MaxLen: 6, MinLen: 6}, {Alphabet: c06Core, MaxLen: 7, MinLen: 7}}
+		return []docgen.TokenSpace{{Alphabet: c06Alphabet, MaxLen: 5}, {Alphabet: c06Core, MaxLen: 6, MinLen: 6}}
 	}
 	return []docgen.TokenSpace{{Alphabet: c06Alphabet, MaxLen: 4}, {Alphabet: c06Core, MaxLen: 5, MinLen: 5}}
 }
@@ -91,7 +91,7 @@ func init() {
 		ID:    "C06",
 		Title: "No file content can crash klog: parsing and evaluation are total",
 		Rule: "ALL strings of at most k tokens over a 31-token alphabet of klog fragments, hostile bytes (invalid/truncated UTF-8, NUL, lone CR) and absurd numbers (k=4 quick, 5 thorough), " +
-			"plus all strings of exactly k+1 (and k+2 thorough) tokens over a 16-token core, plus very long lines (10^5 repetitions of each token in three positions) and hand-picked deep cases; " +
+			"plus all strings of exactly k+1 tokens over a 16-token core, plus very long lines (10^5 repetitions of each token in three positions) and hand-picked deep cases; " +
 			"each is parsed serially and in parallel (2 and 3 workers), every error accessor and renderer is called, and for accepted inputs every read-only command runs. " +
 			"non-trivial = not blank-only; distinct by text hash. The property's sampling clauses (coverage-guided mutation, raw random bytes) are a different technique family and are not covered.",
 		Assumptions: []string{
